@@ -4,7 +4,7 @@ if ! git -C /repo diff --quiet; then echo 'refusing: /repo has uncommitted chang
 F=$1; E=$2; C=$3; T=${4:-quick}
 cd /repo && sed -i "$E" $F && git diff --stat | tail -1
 if git diff --quiet; then echo "MUTANT DID NOT CHANGE ANYTHING"; exit 2; fi
-cd /verif && timeout 3000 ./run.sh $C $T > /tmp/try_mut.out 2>&1; rc=$?
+rm -rf /tmp/tryout && mkdir -p /tmp/tryout && cp /verif/known_findings.json /tmp/tryout/ && cd /verif && VERIF_DIR=/tmp/tryout timeout 3000 ./run.sh $C $T > /tmp/try_mut.out 2>&1; rc=$?
 git -C /repo checkout -- .
 (cd /verif && ./run.sh build >/dev/null 2>&1)  # never leave a binary built from the changed tree behind
 grep -E "^(VIOLATION|OK|KNOWN|BUILD)" /tmp/try_mut.out | head -4
